@@ -466,7 +466,18 @@ def run(job, streams=None):
             elif s2.sessionID:
                 s2.sessionID[ch.draw(len(s2.sessionID), "h.tpos")] ^= 1
             cl["session"] = s2
-            cl["tampered"] = part
+            # two flips of the same bit give the original back
+            root = src
+            while root.get("tampered_from") is not None:
+                root = stored[root["tampered_from"]]
+            r0 = root["session"]
+            same = bytes(s2.sessionID) == bytes(r0.sessionID) and \
+                [bytes(t.ticket) for t in (s2.tickets or [])] == \
+                [bytes(t.ticket) for t in (r0.tickets or [])] and \
+                [bytes(t.ticket) for t in (s2.tls_1_0_tickets or [])] == \
+                [bytes(t.ticket) for t in (r0.tls_1_0_tickets or [])]
+            cl["tampered"] = False if same else part
+            cl["tampered_from"] = src["idx"]
             cl["idx"] = len(stored)
             stored.append(cl)
             probes["tampered"] = 1
@@ -634,6 +645,9 @@ def judge_attempt(info, offer, S, mods, sname, v, probes, srv):
                   "client %s server %s" % (info["view_c"]["resumed"],
                                            info["view_s"]["resumed"]))
         else:
+            if unsure and not reasons:
+                # at the expiry / eviction boundary the server may decline
+                reasons = ["possibly expired or evicted (boundary)"]
             if reasons and not soft:
                 from sim.trace import where
                 e = info["oc"].exc if info["oc"].kind == "exc" else \
